@@ -301,7 +301,10 @@ def run(ctx):
     lib.standard_obligations(ctx, GEN, TARGETS)
     check_lower_assumption(ctx)
     spec = lib.Driver("C03Spec")
+    stale = [n for n, ok, _d in ctx.obligations if not ok and n.startswith(("translate:", "build:Gen/", "build:Model/"))]
     try:
+        if stale:     # a left-over driver would be a model of some OTHER source text
+            raise lib.HarnessError("model not rebuilt from the current source: " + ", ".join(stale))
         model = lib.Driver("C03")
         ctx.oblige("build:driver-model(C03)", True)
     except lib.HarnessError as e:
@@ -318,7 +321,7 @@ def run(ctx):
     ctx.rule = ("real send_initialize / send_initialize_with_client_tracking on anyio memory streams against a scripted peer, virtual "
                 "clock. configs = every ordered list of 1..3 distinct versions from a 6-version universe (3 real, 3 invented) + 4 "
                 "lists with repeats + the library default (None), x preferred in {absent, each universe member}. answers = each "
-                "universe member; 24 malformed results (non-string version x6, missing/ill-typed members, non-object results, "
+                "universe member; 21 malformed results (non-string version x6, missing/ill-typed members, non-object results, "
                 "envelope fallback, peer closes before the notification); JSON-RPC errors of every named code and 20 further "
                 "codes with and without 'protocol version' + 19 boundary messages on -32602; silence / late answer / closed "
                 "stream / only foreign ids; rotating noise prefixes (notification, foreign id, same-id server request, batch) and "
